@@ -129,6 +129,15 @@ CLAIMED = {
                  'model = real Parser / ProcessRules / ApplicationRules / SupvisorsOptions on generated XML documents and '
                  'option dictionaries.', 'DESIGN.md §5 C18',
                  'Regex, XML and XSD engines are oracles; hypothesis doc_unambiguous (no duplicate declarations).'),
+    'C19': claim('Coq proofs over a heap model with explicit aliasing (info records addressed by location; the mock process '
+                 'holds fresh copies): any number of predictions with any placement function leaves the whole observable '
+                 'context unchanged and sends no request (regression theorems for the shallow copy and for the inherited '
+                 'Starter.after); prediction = real start with normal events under three named hypotheses, each shown '
+                 'necessary by a witness; model = real StarterModel and real Starter on generated contexts, deep snapshot '
+                 'diff of the live context around 1-5 predictions evaluated by the Coq spec.', 'DESIGN.md §5 C19',
+                 'PARTIAL: match proved on a group-sequential machine (ALL_INSTANCES, one application) under '
+                 'H_app_or_single_process, H_loads_never_bind_across_groups, H_expected_fresh; known findings '
+                 'c19-prediction-ignores-predicted-load, -stale-expected, -resolves-live-rules, -group-order.'),
     'C20': claim('Coq proofs by induction over every sample stream: history bounds, alignment of value and time series '
                  'through appearing/vanishing keys and counter wraps, period gate, I/O rates finite and >= 0, CPU in '
                  '[0,100] (Flocq/PrimFloat, bit-exact with Python floats), stopped process dropped, pid change resets; '
